@@ -345,7 +345,9 @@ class SchemaBuilder(
         )
         if flattened_schemas:
             return json_schema(
-                allOf=result + flattened_schemas, unevaluatedProperties=False
+                allOf=result + flattened_schemas,
+                # True is the default value and is not emitted
+                unevaluatedProperties=additional_properties is True,
             )
         elif len(result) == 1:
             return result[0]
